@@ -328,7 +328,46 @@ def gen_pair(rng, tier):
     for g in (G, S):
         g['colors'] = [rng.randrange(ncol) for _ in range(g['n'])]
         g['edges'] = {e: rng.randrange(ecol) for e in g['edges']}
+    # keep matcher and oracle tractable: highly symmetric patterns (hundreds of automorphisms) or thousands of
+    # isomorphisms make the largest-common-subgraph search of the matcher itself run for minutes
+    while S['n'] > 2 and (len(automorphisms(S)) > 240 or count_isos(G, S, 3000) >= 3000):
+        last = S['n'] - 1
+        S = {'n': last, 'colors': S['colors'][:last], 'edges': {e: c for e, c in S['edges'].items() if e[0] < last and e[1] < last}}
     return G, S
+
+
+def count_isos(G, S, cap):
+    """Number of induced isomorphisms, counted up to ``cap``."""
+    gadj, sadj = make_adj(G), make_adj(S)
+    count = [0]
+    used = set()
+    cur = []
+    m = S['n']
+
+    def rec(i):
+        if count[0] >= cap:
+            return
+        if i == m:
+            count[0] += 1
+            return
+        for g in range(G['n']):
+            if g in used or G['colors'][g] != S['colors'][i]:
+                continue
+            ok = True
+            for j in range(i):
+                es = sadj.get((i, j))
+                eg = gadj.get((g, cur[j]))
+                if (es is None) != (eg is None) or (es is not None and es != eg):
+                    ok = False
+                    break
+            if ok:
+                used.add(g)
+                cur.append(g)
+                rec(i + 1)
+                cur.pop()
+                used.discard(g)
+    rec(0)
+    return count[0]
 
 
 class C06Check(core.Check):
@@ -336,7 +375,7 @@ class C06Check(core.Check):
     id = 'C06'
     world = 'H'
     chunk = 10
-    run_timeout = 120
+    run_timeout = 60
     real_components = ['vermouth.ismags.ISMAGS (real)', 'networkx Graph as container']
     stub_components = ['node keys are SimKey objects: __hash__ drawn from the run PRNG, ordering by an independent seeded rank '
                        '(the set-iteration schedule); string-key mode runs real str keys in a fresh interpreter per PYTHONHASHSEED']
@@ -353,7 +392,7 @@ class C06Check(core.Check):
     def budgets(self, tier):
         if tier == 'thorough':
             return {'runs': 60000, 'determinism': 100, 'wall': 3300}
-        return {'runs': 1200, 'determinism': 20, 'wall': 1800}
+        return {'runs': 2000, 'determinism': 20, 'wall': 1800}
 
     def generate(self, rng, run_index, tier):
         G, S = gen_pair(rng, tier)
